@@ -198,6 +198,7 @@ func (s *Sim) keyIndexOf(addr string) int {
 		add(outputBase, c.NNodes)
 		add(appBase, c.NApps)
 		add(spareBase, c.NSpare)
+		add(multiBase, nMulti)
 	}
 	if i, ok := s.addrIdx[addr]; ok {
 		return i
@@ -438,6 +439,13 @@ func (g *generator) genTx() *Step {
 		}
 		if r.Chance(0.08) {
 			st.To = st.From
+		}
+		if r.Chance(0.08) {
+			st.To = multiBase + r.Intn(nMulti)
+		}
+		if r.Chance(0.1) {
+			// from a multi-signature account: every member signs
+			st.From = multiBase + r.Intn(nMulti)
 		}
 		bal := int64(0)
 		if v != nil {
